@@ -285,6 +285,12 @@ type dumpCount struct {
 
 func (c dumpCount) total() int { return c.inMock + c.blocked + c.others }
 
+// chanWait: the goroutine is parked on a channel operation (nothing in the function under test
+// makes it move again by itself); any other state (running, runnable, a lock, a sleep) is passing.
+func chanWait(header string) bool {
+	return strings.Contains(header, "[chan receive") || strings.Contains(header, "[select") || strings.Contains(header, "[chan send")
+}
+
 func fanDump(marker string) (dumpCount, bool) {
 	broad := strings.TrimSuffix(marker, ".func1")
 	buf := make([]byte, 1<<20)
@@ -312,10 +318,10 @@ func fanDump(marker string) (dumpCount, bool) {
 		}
 		if !strings.Contains(body, marker) {
 			if strings.Contains(body, broad) {
-				if strings.Contains(header, "[running") || strings.Contains(header, "[runnable") || strings.Contains(header, "[syscall") {
-					c.transient++
-				} else {
+				if chanWait(header) {
 					c.others++
+				} else {
+					c.transient++
 				}
 			}
 			continue
@@ -329,6 +335,9 @@ func fanDump(marker string) (dumpCount, bool) {
 			}
 		case strings.Contains(header, "[chan send"):
 			c.blocked++
+		case chanWait(header):
+			// waiting on a channel that is not a provider's: e.g. a goroutine that waits for its context to end
+			c.others++
 		default:
 			c.transient++
 		}
